@@ -27,7 +27,7 @@ ASSUMPTIONS = [
     'hash seeds and thread counts are sampled; the OS scheduler inside pathos is not controlled',
     'all runs of one case use the same cleavage settings and the default complexity limits',
 ]
-BUDGET = {'quick': 4, 'thorough': 120}
+BUDGET = {'quick': 4, 'thorough': 40}
 WALL = {'quick': 900, 'thorough': 3 * 3600}
 
 
